@@ -333,11 +333,15 @@ func (e *env) lifeCase(f fileParams, baseKind string, ops []seqOp) {
 	var results []string
 	opsStr := make([]string, len(ops))
 	nontrivial := false
+	var trace []string   // life-cycle state of every extractor after every operation
+	var classes []string // which error every operation returned
 
 	for i, op := range ops {
 		opsStr[i] = op.token()
 		if op.E >= len(exts) {
 			results = append(results, "bad/"+strconv.Itoa(fdCount()-baseline))
+			trace = append(trace, lifeStates(exts))
+			classes = append(classes, "bad")
 			continue
 		}
 		x := exts[op.E]
@@ -358,6 +362,7 @@ func (e *env) lifeCase(f fileParams, baseKind string, ops []seqOp) {
 			calls = append(calls, append(append([]call(nil), calls[op.E]...), *op.C))
 			held = append(held, false)
 			res = "-"
+			classes = append(classes, "-")
 		} else {
 			info = lifeOps[op.K]
 			payload, err, panicked := runLifeOp(x, op.K)
@@ -365,6 +370,8 @@ func (e *env) lifeCase(f fileParams, baseKind string, ops []seqOp) {
 				fail("C10/panic", func() string { return fmt.Sprintf("op %s (%s): panic: %s", op.token(), info.name, panicked) })
 				return
 			}
+			classes = append(classes, errClass(err))
+			e.errClassOracle(kase, op, info, err, calls[op.E], n, isPDF, usable, opsStr[:i+1])
 			sp := specOf(calls[op.E], n)
 			switch {
 			case err != nil:
@@ -499,6 +506,8 @@ func (e *env) lifeCase(f fileParams, baseKind string, ops []seqOp) {
 				})
 			}
 		}
+		trace = append(trace, lifeStates(exts))
+		e.releaseOracle(kase, exts, op, opsStr[:i+1], borrowed != nil)
 	}
 
 	aborted = false
@@ -516,6 +525,13 @@ func (e *env) lifeCase(f fileParams, baseKind string, ops []seqOp) {
 	world := fmt.Sprintf("%s,%s,%s,%s,%s,%s", baseKind, ff.extFmt, b(ff.exists), ff.detected, b(ff.parseOk), ff.count)
 	c.Op("c10.life "+world+" "+strings.Join(opsStr, " "), strings.Join(results, " ")+" | "+strings.Join(dump, " "))
 	c.Op("c10.lin "+world+" "+strings.Join(opsStr, " "), strings.Join(stripFd(results), " "))
+	c.Op("c10.auto "+world+" "+strings.Join(opsStr, " "), strings.Join(trace, " ")+" | "+lifeStates(exts)+" "+ownersField(exts, ops, borrowed != nil))
+	c.Op("c10.ecls "+world+" "+strings.Join(opsStr, " "), strings.Join(classes, " "))
+	for _, cl := range classes {
+		if cl != "-" && cl != "ok" && cl != "bad" {
+			c.Count("errclass:" + strings.SplitN(cl, ":", 2)[0])
+		}
+	}
 	fdAfterOps := fdCount() - baseline
 
 	for j, x := range exts {
